@@ -309,7 +309,20 @@ def register(ctx, rule='C03.register'):
                 if nme == 'meta' and op_place(o) is not None:
                     po = op_place(o)
                     kept.add(du.trace_root(po['l'], tuple(str(e.get('name', e.get('i'))) for e in po['pr'] if e['k'] == 'field'), within=li.reach))
+        same_tree = False
         if root is None or not kept or root not in kept:
+            # the same relation on expression trees: registered == <E>.tx_id and kept == <E> (the header passed to a folded helper by reference)
+            tv = du.sym(val)
+            for b2, si, s in aggregates_of(bf, 'TxInner'):
+                for nme, o in zip(s['rv']['fields'], s['rv']['ops']):
+                    if nme == 'meta':
+                        tk = du.sym(o)
+                        if tv[0] == 'field' and tv[2] and tv[2][-1] == 'tx_id' and (
+                                (tk[0] == 'field' and tk[1] == tv[1] and tuple(tk[2]) == tuple(tv[2][:-1])) or (len(tv[2]) == 1 and tk == tv[1])):
+                            same_tree = True
+        if same_tree:
+            res.append(ok(rule, 'registered id at %s is the tx_id of the header the transaction keeps (same expression)' % bf.loc(bb), sites=1))
+        elif root is None or not kept or root not in kept:
             res.append(bad(rule, '%s | registered id is not the snapshot id' % bf.qual,
                            'the value inserted into the registry at %s is not a plain copy of the tx_id of the Meta the transaction keeps (source local %s, kept %s): '
                            'the reader would pin a different snapshot than the one it reads' % (bf.loc(bb), root, sorted(kept)), where=bf.loc(bb)))
